@@ -76,12 +76,17 @@ for _sa, _nm in ((0, "REGISTER"), (1, "RESERVE"), (2, "RELEASE"), (3, "CLEAR"), 
     pr_case("PR OUT %s, basic list" % _nm, _sa, _basic(_nm))
 
 
-def _register_spec(kinds):
+def _register_spec(kinds, form="list"):
     def b():
         kw = leaves(PO + "._basic_parameter_list_bits", "pr", skip=("spec_i_pt",))
         kw["spec_i_pt"] = 1
         tids = [transport_id(k, "t%d" % i) for i, k in enumerate(kinds)]
         kw["transport_ids"] = [t[0] for t in tids]
+        if form == "tuple":
+            kw["transport_ids"] = tuple(kw["transport_ids"])
+        elif form == "generator":       # any iterable of TransportID dictionaries: here one that can be walked only once
+            from pyscsi_sa.rt import GenVal
+            kw["transport_ids"] = GenVal(kw["transport_ids"])
         img = Image(28)
         img.put_table(PO + "._basic_parameter_list_bits", kw)
         img.put_int(24, 4, sum(len(t[1]) for t in tids))     # TRANSPORTID PARAMETER DATA LENGTH
@@ -93,6 +98,8 @@ def _register_spec(kinds):
 
 for _kinds in ([], ["fcp"], ["sas", ("iscsi", "iqn.abc"), "rdma"], [("iscsi", "iqn.a"), ("iscsi", "iqn.abcd", "00023d000001")]):
     pr_case("PR OUT REGISTER with SPEC_I_PT and %d TransportIDs %r" % (len(_kinds), _kinds), 0, _register_spec(_kinds))
+for _form in ("tuple", "generator"):
+    pr_case("PR OUT REGISTER with SPEC_I_PT, three TransportIDs given as a %s" % _form, 0, _register_spec(["sas", ("iscsi", "iqn.abc"), "rdma"], _form))
 
 
 def _ram(kind):
